@@ -109,7 +109,8 @@ def main():
                           "aggsigdb.NewMemDBV2 (go db.Run) with a scripted core.Deadliner in a synctest bubble; real core.SignedData values (VersionedAttestation, SignedSyncMessage, SignedRandao, "
                           "SyncCommitteeSelection keyed by subcommittee); kinds: corpus (minimised F3 histories first), random, waiters (2..8 readers blocked on <=2 keys, then stores), "
                           "partial (multi-entry Store with a conflicting entry while readers wait for the others), expiry (expire then re-store other data), par, "
-                          "cancelrace (10..40 reads, mostly of PRESENT keys, whose context cancels itself during its k-th Done()/Err() call, k=1..4, each followed by a liveness check of the database loop, then a probe = Store+Await of a fresh key that must both complete; every Store runs in its own goroutine so a hanging Store is observed, not a harness deadlock); "
+                          "cancelrace (10..40 reads, mostly of PRESENT keys, whose context cancels itself during its k-th Done()/Err() call, k=1..4, each followed by a liveness check of the database loop, then a probe = Store+Await of a fresh key that must both complete; every Store runs in its own goroutine so a hanging Store is observed, not a harness deadlock), "
+                          "abandon (Stores of the same value / other data / a new key, and Awaits, whose caller context is cancelled before the call, during its k-th Done()/Err() call, or by a hook in the value's MarshalJSON while the store compares it with the existing data; whether the abandoned Store took effect is observed by a probe read and both outcomes are accepted; each is followed by the loop liveness check, then reads of present keys, a probe and stores that must wake the remaining waiters); "
                           "non-trivial = at least 2 readers were blocked at the moment of some store; distinct by hash of (implementation, observed label sequence)")
     kinds, impls, blocked_hist = {}, {}, {}
     lab_counts = {k: 0 for k in LABEL_KINDS}
@@ -149,7 +150,12 @@ def main():
         if h.get("anomaly"):
             key = "anomaly-" + h["impl"]
             if h["anomaly"].startswith("wedged"):
-                key = ("wedged-after-cancelled-read-" if any(o["op"] == "cread" for o in h["script"]) else "wedged-") + h["impl"]
+                key = "wedged-"
+                if "abandoned Store" in h["anomaly"]:
+                    key = "wedged-after-abandoned-store-"
+                elif any(o["op"] == "cread" for o in h["script"]):
+                    key = "wedged-after-cancelled-read-"
+                key += h["impl"]
             R.violation(key, "aggsigdb %s: %s" % (h["impl"], h["anomaly"]), replay_of(h))
     for shard_i, shard in enumerate(vp.chunks(hs, 1000)):
         rc, out = vp.coq_eval("C17_%d" % shard_i, cases_v(shard))
